@@ -23,8 +23,9 @@ None == 0
 (* A : block id -> [parent, height, gt, bf, ok, ins, outs]                 *)
 (* S : [stored, inlc, lc, tip, utxo]                                       *)
 
+(* top: the greatest height ever wound (the code's last_block_id); it never decreases *)
 EmptyState == [stored |-> {}, inlc |-> {}, lc |-> [h \in 1..MaxH |-> None],
-               tip |-> None, utxo |-> {}]
+               tip |-> None, utxo |-> {}, top |-> 0]
 
 RECURSIVE PathUp(_, _, _)
 PathUp(A, b, within) ==   \* root-first path of stored ancestors ending in b
@@ -48,8 +49,14 @@ LcOf(A, p) == [h \in 1..MaxH |->
 (* adopted a chain whose older blocks it never saw, at the lowest block it wound.        *)
 FlaggedPath(A, S) == PathUp(A, S.tip, S.inlc)
 
-(* C03: ledger, by-height index, flags and tip describe the same chain of ancestors *)
-Inconsistencies(A, S) ==
+StaleOuts(A, S) == UNION {A[x].outs : x \in {y \in DOMAIN A : A[y].height + 2 * G <= S.top}}
+NormState(A, S) == [S EXCEPT !.utxo = @ \ StaleOuts(A, S), !.top = 0]
+
+(* C03: ledger, by-height index, flags and tip describe the same chain of ancestors.       *)
+(* `trusted`: the caller knows that the node never adopted a chain without known ancestors; *)
+(* then a chain that starts at the retention horizon (the node purged the older blocks       *)
+(* itself) is as good as one that starts at the genesis block.                               *)
+InconsistenciesT(A, S, trusted) ==
     IF S.tip = None
     THEN (IF S.utxo = {} THEN {} ELSE {"utxo"}) \cup (IF S.inlc = {} THEN {} ELSE {"flags"})
          \cup (IF \A h \in 1..MaxH : S.lc[h] = None THEN {} ELSE {"index"})
@@ -59,9 +66,28 @@ Inconsistencies(A, S) ==
          ELSE \* the ledger is an exact replay only when the chain starts at the genesis block:
               \* on a chain whose older blocks were never seen, inputs refer to outputs the
               \* node never held (it runs with input checks against the ledger switched off)
-              (IF A[p[1]].parent = None /\ S.utxo # Replay(A, p) THEN {"utxo"} ELSE {})
-              \cup (IF S.inlc = SeqToSet(p) /\ S.inlc \subseteq S.stored THEN {} ELSE {"flags"})
-              \cup (IF S.lc = LcOf(A, p) THEN {} ELSE {"index"})
+              LET rooted == A[p[1]].parent = None
+                            \/ (trusted /\ A[p[1]].height + 2 * G = A[S.tip].height + 1)
+                  \* outputs of blocks below the retention horizon can no longer be spent; whether
+                  \* their entries are still physically in the map depends on whether the block's
+                  \* transactions were in memory when it was purged - they are not compared
+                  stale == StaleOuts(A, S)
+              IN (IF rooted /\ S.utxo \ stale # Replay(A, p) \ stale THEN {"utxo"} ELSE {})
+                 \* flagged: the blocks of the chain - and possibly ancestors of it that lie below
+                 \* the retention horizon and were never purged (a competing chain longer than 2G
+                 \* that was wound from stored side blocks: only new maximum heights purge)
+                 \cup (IF /\ SeqToSet(p) \subseteq S.inlc /\ S.inlc \subseteq S.stored
+                          /\ \A x \in S.inlc \ SeqToSet(p) :
+                                /\ A[x].height + 2 * G <= A[S.tip].height
+                                /\ x \in SeqToSet(PathUp(A, S.tip, DOMAIN A))
+                       THEN {} ELSE {"flags"})
+                 \* the index is a ring of 2G slots: it lists the chain for the last 2G heights;
+                 \* a lower height is either absent or still lists the chain's block
+                 \cup (IF \A h \in 1..MaxH :
+                            \/ S.lc[h] = LcOf(A, p)[h]
+                            \/ (h + 2 * G <= A[S.tip].height /\ S.lc[h] = None)
+                       THEN {} ELSE {"index"})
+Inconsistencies(A, S) == InconsistenciesT(A, S, FALSE)
 
 Consistent(A, S) == Inconsistencies(A, S) = {}
 
@@ -91,12 +117,57 @@ GTOk(A, b, st) ==
 
 BfOf(A) == [x \in DOMAIN A |-> A[x].bf]
 
-Adopted(A, S, b) ==
-    LET st2 == S.stored \cup {b}
-        nc == NewChain(A, b, st2, S.inlc)
-        p == (IF nc.found THEN PathUp(A, nc.anc, S.inlc) ELSE <<>>) \o RevSeq(nc.chain)
-    IN [stored |-> st2, inlc |-> SeqToSet(p), lc |-> LcOf(A, p), tip |-> b,
-        utxo |-> Replay(A, p)]
+(* Retention: winding a block at height h > 2G deletes every stored block of height h - 2G  *)
+(* (all forks), its index entry and whatever outputs of it are still in the ledger.          *)
+DeadHeights(A, wound) == {h \in 1..MaxH : \E x \in wound : A[x].height = h + 2 * G}
+PurgeHeights(A, T, hs) ==
+    LET dead == {x \in T.stored : A[x].height \in hs} IN
+    [T EXCEPT !.stored = @ \ dead, !.inlc = @ \ dead,
+              !.lc = [h \in 1..MaxH |-> IF h \in hs THEN None ELSE @[h]],
+              !.utxo = @ \ UNION {A[x].outs : x \in dead}]
+
+(* unwinding / winding one block (the micro-steps of the machine below) *)
+BelowA(A, T, x) == IF A[x].parent \in T.stored THEN A[x].parent ELSE None
+PopA(A, T, x) == [T EXCEPT !.tip = BelowA(A, T, x),
+                          !.inlc = @ \ {x},
+                          !.lc[A[x].height] = None,
+                          !.utxo = (@ \ A[x].outs) \cup A[x].ins]
+(* Winding x.  The by-height index is a ring of 2G slots with ONE on-chain marker per slot: *)
+(* marking height h unmarks h - 2G, h - 4G, ...  Blocks that leave the retention window are   *)
+(* purged only when the height is a new maximum (re-winding known heights purges nothing).    *)
+PushA(A, T, x) ==
+    LET h == A[x].height
+        T1 == [T EXCEPT !.tip = x,
+                        !.inlc = @ \cup {x},
+                        !.lc = [hh \in 1..MaxH |-> IF hh = h THEN x
+                                                   ELSE IF hh < h /\ (h - hh) % (2 * G) = 0 THEN None
+                                                   ELSE @[hh]],
+                        !.utxo = (@ \ A[x].ins) \cup A[x].outs,
+                        !.top = IF h > @ THEN h ELSE @]
+    IN IF h > T.top THEN PurgeHeights(A, T1, DeadHeights(A, {x})) ELSE T1
+RECURSIVE ApplySeq(_, _, _, _)
+ApplySeq(A, T, seq, push) ==
+    IF seq = <<>> THEN T
+    ELSE ApplySeq(A, IF push THEN PushA(A, T, Head(seq)) ELSE PopA(A, T, Head(seq)), Tail(seq), push)
+
+(* What a reorganisation that fails at wo[i] leaves behind: the old chain (tip-first) unwound,  *)
+(* the blocks before the failing one wound and unwound again, the old chain re-wound.  On a     *)
+(* chain rooted in genesis and shorter than 2G this is the state before the call; otherwise it  *)
+(* is not (purges are not undone; on a chain without known ancestors unwinding a block inserts  *)
+(* inputs that were never in the ledger) - see RejectedLeavesNoTrace.                           *)
+FailState(A, S, old, wo, i) ==
+    LET pre == SubSeq(wo, 1, i - 1)
+        T1 == ApplySeq(A, S, old, FALSE)
+        T2 == ApplySeq(A, T1, pre, TRUE)
+        T3 == ApplySeq(A, T2, RevSeq(pre), FALSE)
+    IN ApplySeq(A, T3, RevSeq(old), TRUE)
+
+(* A successful reorganisation: the old chain (tip-first) unwound, the new chain wound.  On a  *)
+(* consistent state rooted in genesis the result is the replay of the new tip's ancestors      *)
+(* (QuiescentConsistent); the ledger is updated incrementally, so garbage left by an earlier   *)
+(* attempt on a chain without known ancestors is carried along.                                *)
+Adopted(A, S, b, old, new) ==
+    ApplySeq(A, ApplySeq(A, [S EXCEPT !.stored = @ \cup {b}], old, FALSE), RevSeq(new), TRUE)
 
 Stored(S, b) == [S EXCEPT !.stored = @ \cup {b}]
 
@@ -147,8 +218,37 @@ AddSetM(A, S, b, m) ==
       [] d.k = "GTFail" -> {[res |-> "Invalid", S |-> S]}
       [] d.k = "Reorg" ->
              (IF OkLenient(A, d.new, S.stored \cup {b})
-              THEN {[res |-> "AddedLc", S |-> Adopted(A, S, b)]} ELSE {})
-             \cup (IF ~OkStrict(A, d.new) THEN {[res |-> "Invalid", S |-> S]} ELSE {})
+              THEN {[res |-> "AddedLc", S |-> Adopted(A, S, b, d.old, d.new)]} ELSE {})
+             \cup
+             \* The attempt fails at the first block (in wind order) that does not validate.  What
+             \* the code leaves behind is the old state - except that the blocks it wound before
+             \* the failure already purged what left the retention window FOR THEM (deviation from
+             \* "a rejected block leaves no trace", see RejectedLeavesNoTrace; no difference while
+             \* chains are shorter than 2G)
+             LET wo == RevSeq(d.new)
+                 st == S.stored \cup {b}
+                 passes(i) == A[wo[i]].ok \/ Uncheckable(A, wo[i], st)
+                 failpts == {i \in DOMAIN wo : ~A[wo[i]].ok /\ \A j \in 1..(i - 1) : passes(j)}
+             IN {[res |-> "Invalid", S |-> FailState(A, S, d.old, wo, i)] : i \in failpts}
+
+(* Deviation (known finding): blocks wound before the failure may already have purged blocks  *)
+(* of the old chain (or of the new chain itself); unwinding / re-winding a block that is gone   *)
+(* aborts the node.  Needs a candidate chain that reaches 2G above blocks of the node's chain.  *)
+PanicPossible(A, S, b) ==
+    LET d == Decide(A, S, b, "flags") IN
+    /\ d.k = "Reorg"
+    /\ LET wo == RevSeq(d.new)
+           st == S.stored \cup {b}
+           passes(i) == A[wo[i]].ok \/ Uncheckable(A, wo[i], st)
+           failpts == {i \in DOMAIN wo : ~A[wo[i]].ok /\ \A j \in 1..(i - 1) : passes(j)}
+       IN \E i \in failpts :
+             LET dead == DeadHeights(A, {wo[j] : j \in 1..(i - 1)})
+             IN \E x \in SeqToSet(d.old) \cup {wo[j] : j \in 1..(i - 1)} : A[x].height \in dead
+
+(* the call attempts to move the node onto a chain that shares no block with the current one *)
+DetachedReorg(A, S, b) ==
+    LET d == Decide(A, S, b, "flags") IN
+    d.k = "Reorg" /\ S.stored # {} /\ ~NewChain(A, b, S.stored \cup {b}, S.inlc).found
 
 AddSet(A, S, b) == AddSetM(A, S, b, "flags")
 
@@ -160,12 +260,13 @@ DecisionKinds(A, S, b) == {Decide(A, S, b, "flags").k, Decide(A, S, b, "stored")
 (* C05 soundness as a predicate on an observed tip move S -> T *)
 CriteriaM(A, S, T, m) ==
     /\ T.tip # None /\ T.tip \in DOMAIN A
-    /\ LET nc == NewChain(A, T.tip, T.stored, S.inlc)
+    /\ LET st == S.stored \cup {T.tip}     \* what was stored when the decision was taken (winding purges)
+           nc == NewChain(A, T.tip, st, S.inlc)
            old == IF nc.found THEN OldChain(A, S.tip, nc.anc, S.stored) ELSE CurrentChain(A, S, m)
        IN /\ Len(nc.chain) > Len(old)
           /\ LimbLeq(LimbSumSeq(old, BfOf(A)), LimbSumSeq(nc.chain, BfOf(A)))
-          /\ OkLenient(A, nc.chain, T.stored)
-          /\ \A i \in DOMAIN nc.chain : GTOk(A, nc.chain[i], T.stored)
+          /\ OkLenient(A, nc.chain, st)
+          /\ \A i \in DOMAIN nc.chain : GTOk(A, nc.chain[i], st)
           /\ (S.tip # None => A[T.tip].height > A[S.tip].height)
 
 Criteria(A, S, T) == T.tip = S.tip \/ CriteriaM(A, S, T, "flags")
@@ -180,36 +281,35 @@ vars == <<A, S, w, last>>
 Idle == [pc |-> "idle", b |-> None, new |-> <<>>, old |-> <<>>, i |-> 0, steps |-> 0,
          pre |-> EmptyState]
 
-Below(T, x) == IF A[x].parent \in T.stored THEN A[x].parent ELSE None
-Pop(T, x) == [T EXCEPT !.tip = Below(T, x),
-                       !.inlc = @ \ {x},
-                       !.lc[A[x].height] = None,
-                       !.utxo = (@ \ A[x].outs) \cup A[x].ins]
-Push(T, x) == [T EXCEPT !.tip = x,
-                        !.inlc = @ \cup {x},
-                        !.lc[A[x].height] = x,
-                        !.utxo = (@ \ A[x].ins) \cup A[x].outs]
+Below(T, x) == BelowA(A, T, x)
+Pop(T, x) == PopA(A, T, x)
+Push(T, x) == PushA(A, T, x)
 
 StepBound(ww) == 2 * (Len(ww.old) + Len(ww.new)) + 2
 
 Offer(b) ==
     /\ w.pc = "idle"
+    /\ last.res # "Panic"                          \* an aborted node takes no more blocks
     /\ b \in DOMAIN A
     /\ LET d == Decide(A, S, b, "flags") IN
        IF d.k = "Reorg"
        THEN /\ w' = [pc |-> IF d.old = <<>> THEN "wind" ELSE "unwind", b |-> b,
                      new |-> RevSeq(d.new), old |-> d.old, i |-> 1, steps |-> 0, pre |-> S]
             /\ S' = Stored(S, b)
-            /\ last' = [b |-> b, res |-> "pending", ok |-> TRUE]
+            /\ last' = [b |-> b, res |-> "pending", ok |-> TRUE, same |-> TRUE,
+                        det |-> last.det \/ DetachedReorg(A, S, b)]
        ELSE /\ \E o \in AddSetM(A, S, b, "flags") :
                   /\ S' = o.S
-                  /\ last' = [b |-> b, res |-> o.res, ok |-> TRUE]
+                  /\ last' = [b |-> b, res |-> o.res, ok |-> TRUE, same |-> ([o.S EXCEPT !.top = 0] = [S EXCEPT !.top = 0]), det |-> last.det]
             /\ w' = w
     /\ UNCHANGED A
 
 Finish(res, T) ==
     /\ S' = T
-    /\ last' = [b |-> w.b, res |-> res, ok |-> ([res |-> res, S |-> T] \in AddSet(A, w.pre, w.b))]
+    /\ last' = [b |-> w.b, res |-> res,
+                ok |-> IF res = "Panic" THEN PanicPossible(A, w.pre, w.b)
+                       ELSE ([res |-> res, S |-> T] \in AddSet(A, w.pre, w.b)) \/ PanicPossible(A, w.pre, w.b),
+                same |-> ([T EXCEPT !.top = 0] = [w.pre EXCEPT !.top = 0]), det |-> last.det]
     /\ w' = Idle
 
 AfterFailure(T) ==  \* nothing of the new chain is applied any more
@@ -229,6 +329,7 @@ UnwindStep ==
 
 WindStep ==
     /\ w.pc = "wind"
+    /\ w.new[w.i] \in S.stored
     /\ LET x == w.new[w.i] IN
        \E valid \in {A[x].ok} \cup (IF Uncheckable(A, x, S.stored) THEN {TRUE} ELSE {}) :
        IF valid
@@ -245,6 +346,7 @@ WindStep ==
 
 UnNewStep ==
     /\ w.pc = "unnew"
+    /\ w.new[w.i] \in S.stored
     /\ LET x == w.new[w.i] IN
        /\ x = S.tip
        /\ IF w.i = 1 THEN AfterFailure(Pop(S, x))
@@ -255,6 +357,7 @@ UnNewStep ==
 
 RewindStep ==
     /\ w.pc = "rewind"
+    /\ w.old[w.i] \in S.stored
     /\ LET x == w.old[w.i] IN
        /\ Below(S, x) = S.tip
        /\ IF w.i = 1
@@ -264,16 +367,31 @@ RewindStep ==
                /\ UNCHANGED last
     /\ UNCHANGED A
 
-Step == UnwindStep \/ WindStep \/ UnNewStep \/ RewindStep
+(* the block to (un)wind next was purged by a block wound earlier in this very call *)
+CrashStep ==
+    /\ w.pc \in {"wind", "unnew", "rewind"}
+    /\ (IF w.pc = "rewind" THEN w.old[w.i] ELSE w.new[w.i]) \notin S.stored
+    /\ Finish("Panic", S)
+    /\ UNCHANGED A
+
+Step == UnwindStep \/ WindStep \/ UnNewStep \/ RewindStep \/ CrashStep
 
 -----------------------------------------------------------------------------
 (* Properties of the design *)
 
-QuiescentConsistent == w.pc = "idle" => Consistent(A, S)                       \* C03
+(* C03.  Once the node has tried a chain without known ancestors its ledger is no longer an  *)
+(* exact replay (known finding); flags, index and tip still have to agree.                     *)
+QuiescentConsistent ==
+    (w.pc = "idle" /\ last.res # "Panic") =>
+        InconsistenciesT(A, S, ~last.det) \ (IF last.det THEN {"utxo"} ELSE {}) = {}
 MicroEqualsBig      == last.ok                                                 \* C03 C04 C05
 StepsBounded        == w.steps <= StepBound(w)                                 \* C04
 RejectedLeavesNoTrace ==                                                       \* C04
-    (w.pc = "idle" /\ last.res \in {"Invalid", "Exists"}) => TRUE
+    (w.pc = "idle" /\ last.res \in {"Invalid", "Exists"}) => last.same
+(* the same, outside the two regimes of the known findings: chains shorter than 2G (MaxH <= 2G *)
+(* in the instance) and no attempt on a chain without known ancestors                          *)
+RejectedLeavesNoTraceRooted ==
+    (w.pc = "idle" /\ last.res \in {"Invalid", "Exists"} /\ ~last.det) => last.same
 TipNeverLower == [][ (S.tip # None /\ S'.tip # None /\ w'.pc = "idle" /\ w.pc = "idle")
                        => A[S'.tip].height >= A[S.tip].height ]_vars           \* C05
 OrphanInert == [][ \A b \in DOMAIN A :
@@ -281,4 +399,5 @@ OrphanInert == [][ \A b \in DOMAIN A :
                         /\ A[b].parent \notin S.stored)
                      => (S'.tip = S.tip /\ S'.lc = S.lc /\ S'.inlc = S.inlc /\ S'.utxo = S.utxo) ]_vars
 Terminates == (w.pc # "idle") ~> (w.pc = "idle")                               \* C04
+NoPanic == last.res # "Panic"                                                  \* C04 / C11
 =============================================================================
